@@ -86,7 +86,7 @@ theorem override_word_same_iff (t : Str) (c : Char) (ho : isPunctOverride c = tr
 /-- how the candidates at one position of the two lists are related: the same core candidate with the old / new
     punctuation wrapped around it, or the raw typed text (old / new) -/
 def SameItem (env : Env) (cfg : Cfg) (t : Str) (c : Char) (a b : Rank) : Prop :=
-  (∃ r, a = wrapR (preparedParts env cfg t) r ∧ b = wrapR (preparedParts env cfg (t ++ [c])) r) ∨
+  (∃ r, a = wrapRSel (preparedParts env cfg t) r ∧ b = wrapRSel (preparedParts env cfg (t ++ [c])) r) ∨
   (a = .last t 3 ∧ b = .last (t ++ [c]) 3)
 
 /-- related candidates are of the same kind and carry the same number -/
